@@ -34,6 +34,9 @@ const RECVS: &[(&str, u8)] = &[
     ("(lambda (c) (set! k (list c)) 8)", 2),
     ("(lambda (c) (set! k (lambda (v) (c v))) 9)", 3),
     ("(lambda (c) (set! k (vector c)) (c 10))", 4),
+    // the receiver is itself a continuation: it is called with the current continuation, like any procedure
+    ("(lambda (c) (call/cc c))", 0),
+    ("(lambda (c) (set! k c) (call/cc c))", 1),
 ];
 
 fn kcall(store: u8, v: &str) -> String {
@@ -56,6 +59,8 @@ fn invokers(store: u8) -> Vec<String> {
         "(if k2 (let ((kk k2)) (set! k2 #f) (kk 40)) 'no-k2)".to_string(),
         // the value handed to k is a fresh heap object that nothing else refers to
         kcall(store, "(list 'fresh (vector 28))"),
+        // the stored continuation as the receiver of a later call/cc
+        format!("(procedure? (call/cc {}))", match store { 2 => "(car k)", 4 => "(vector-ref k 0)", _ => "k" }),
     ]
 }
 
@@ -143,12 +148,20 @@ pub fn run(ctx: &Ctx) -> i32 {
     let mut rep = Report::new("model_checking");
     let max_inv = std::env::var("C05_INV").ok().and_then(|s| s.parse().ok()).unwrap_or(ctx.tier.pick(2u32, 3u32));
     let progs = programs(max_inv);
+    // entry route: every program is given to the VM form by form as text (Vm::eval_text, what the REPL does); as data
+    // (Vm::eval) every program in the thorough tier, those with at most one later invocation form in the quick tier
+    let as_data: Vec<usize> = {
+        let short: std::collections::HashSet<String> = programs(1).into_iter().collect();
+        (0..progs.len()).filter(|i| ctx.tier == Tier::Thorough || short.contains(&progs[*i])).collect()
+    };
+    let n_text = progs.len() as u64;
     let acc = par_fold(
-        progs.len() as u64,
+        n_text + as_data.len() as u64,
         16,
         || St { pair: None, used: 0 },
         |st, acc, i| {
-            let text = &progs[i as usize];
+            let text_route = i < n_text;
+            let text = if text_route { &progs[i as usize] } else { &progs[as_data[(i - n_text) as usize]] };
             let forms = match parse_forms(text) {
                 Ok(f) => f,
                 Err(_) => {
@@ -168,6 +181,7 @@ pub fn run(ctx: &Ctx) -> i32 {
             }
             st.used += 1;
             let (im, m) = st.pair.as_mut().unwrap();
+            im.text_route = text_route;
             // every collection point of the VM collects (invoking a continuation may be one)
             marwood::vm::verif::reset();
             marwood::vm::verif::set_eager_gc(true);
@@ -188,12 +202,13 @@ pub fn run(ctx: &Ctx) -> i32 {
                     let fresh = {
                         let mut im2 = Impl::new();
                         im2.collect_before_each_form = true;
+                        im2.text_route = text_route;
                         let mut m2 = new_model(&im2);
                         run_session_on(&mut m2, &mut im2, &forms).verdict
                     };
                     let reproduces = matches!(fresh, Verdict::Mismatch { .. });
                     acc.violation(Violation {
-                        key: format!("callcc:{}", &text[HEAD.len()..]),
+                        key: format!("callcc{}:{}", if text_route { "" } else { "/as-data" }, &text[HEAD.len()..]),
                         class: Some(format!("{}{}", if text.contains("(map (lambda (x) (list x") { "capture-in-map" } else { "capture" }, if reproduces { "" } else { "/history-dependent" })),
                         observed: if observed.starts_with("panic") { "panic".into() } else if observed.starts_with("error") { "error".into() } else { format!("wrong-{}", what) },
                         detail: json!({"session": [text], "form_index": form, "expected": expected, "observed": observed, "reproduces_in_fresh_vm": reproduces}),
@@ -212,7 +227,7 @@ pub fn run(ctx: &Ctx) -> i32 {
     rep.transitions = Some(*acc.counters.get("model_steps").unwrap_or(&0));
     rep.traces_validated = Some(acc.nontrivial);
     rep.rule = format!(
-        "The full product: call/cc position ({} contexts: operand 2 of 3, last operand, variadic argument, let binding, tail of a procedure, inside a map callback, if test, nested operand, after heap-allocated operands (list, cons, apply), as a later element of a quasiquoted vector / list template and of a vector call) x receiver ({}: returns normally, escapes at once, escapes from a nested operand, a builtin, stores k in a variable / list / closure / vector-then-escapes) x surrounding frame (top level, variadic frame, after a different-arity tail call, 60 non-tail frames deep) x same-form re-entry loop (no / twice via a counter) x every sequence of <= {} later top-level invocation forms out of 9 (direct, guarded loop, inside map / for-each callbacks, inside the extent of a second continuation, from depth 3, from an operand position, re-entering the second continuation, with a freshly allocated value) = {} programs; each program also mutates a captured local and captured data between capture and re-entry and logs it (the log keeps the delivered result itself - a re-entry must not change an object already delivered - or, in the contexts with heap-allocated operands, a copy, so that those operands stay reachable only through the continuation). A collection is forced before every top-level form and at every point where the VM itself polls the collector (heap audit attached). Every form's value and the log are compared with the reference CEK machine. Non-trivial = agreement on every form.",
+        "The full product: call/cc position ({} contexts: operand 2 of 3, last operand, variadic argument, let binding, tail of a procedure, inside a map callback, if test, nested operand, after heap-allocated operands (list, cons, apply), as a later element of a quasiquoted vector / list template and of a vector call) x receiver ({}: returns normally, escapes at once, escapes from a nested operand, a builtin, stores k in a variable / list / closure / vector-then-escapes, hands the continuation to call/cc as its receiver) x surrounding frame (top level, variadic frame, after a different-arity tail call, 60 non-tail frames deep) x same-form re-entry loop (no / twice via a counter) x every sequence of <= {} later top-level invocation forms out of 10 (direct, guarded loop, inside map / for-each callbacks, inside the extent of a second continuation, from depth 3, from an operand position, re-entering the second continuation, with a freshly allocated value, as the receiver of a later call/cc) = {} programs, each given to the VM form by form as text (Vm::eval_text) and (thorough: all; quick: those with at most one later invocation form) as data (Vm::eval); each program also mutates a captured local and captured data between capture and re-entry and logs it (the log keeps the delivered result itself - a re-entry must not change an object already delivered - or, in the contexts with heap-allocated operands, a copy, so that those operands stay reachable only through the continuation). A collection is forced before every top-level form and at every point where the VM itself polls the collector (heap audit attached). Every form's value and the log are compared with the reference CEK machine. Non-trivial = agreement on every form.",
         CTXS.len(), RECVS.len(), max_inv, progs.len()
     );
     rep.extra("programs", json!(progs.len()));
